@@ -578,3 +578,12 @@ func Watch(d time.Duration, fn func()) (finished bool, dump string) {
 		return false, Stacks()
 	}
 }
+
+// MustJSON marshals v or panics.
+func MustJSON(v any) []byte {
+	b, err := json.Marshal(v)
+	if err != nil {
+		panic(err)
+	}
+	return b
+}
